@@ -63,6 +63,16 @@ CLAIMED = {
             "For every epoch transition whose joiner secret the harness can obtain independently (it opens the joiner's GroupSecrets with the joiner's init key, or the commit has no path so the commit secret is zero): joiner secret = ExpandWithLabel(Extract(init[n-1], commit_secret)) with the commit secret walked up from the joiner's path secret through the reference tree; PSK secret chain from the PSK ids in GroupSecrets and the stored / resumption values; welcome key+nonce, epoch secret and the derived exporter, authentication, external, membership, init, resumption, sender-data and confirmation secrets vs every member's hook-H2 values; confirmation tag, confirmed and interim transcript hashes (public commits), membership tag of every public member message, epoch authenticator, export_secret for random label / context / length in {0,1,16,32,33,64,255}; for every PrivateMessage the content key, nonce (modulo reuse guard) and the sender-data key / nonce from the ciphertext sample vs the reference secret tree for (tree size, leaf, type, generation). Suites 1-3 (SHA-256); other hashes via C14's provider runs.",
             "trusted: sha2 / hmac crates, my reading of RFC 9420 (a common-mode error in both the library and the reference is the residual risk); HPKE open of GroupSecrets uses the provider primitive",
             "DESIGN.md §6.C13"),
+    "C18": ("exploration",
+            "deterministic simulation with divergent PSK stores: per party and PSK id the common value, another value or nothing (seeded); commits inject 0-3 external PSKs and resumption PSKs of past epochs inside and beyond each member's retention window, by value and by reference; PSK-holder + retention model predicts who must follow",
+            "For every commit the model derives the PSK list (by value, plus by-reference proposals the committer can resolve) and for every receiver whether it holds the committer's value of each external PSK and still retains each referenced past epoch (retention model shared with C19, member at that epoch on the same device): holders must accept and reach the canonical epoch state (C01 oracle), everybody else must reject with its complete state unchanged (H1) and is then counted as legitimately stuck; joiners need the same external PSKs and can never use a Welcome that needs a resumption PSK. That the PSK value / id / order enters every epoch secret is decided under C13 (PSK chain vs reference).",
+            "trusted: the PSK-holder and retention models; cases the model cannot decide (a by-reference PSK the committer may have dropped) are 'may' and only safety is checked",
+            "DESIGN.md §6.C18"),
+    "C19": ("exploration",
+            "deterministic simulation with delayed delivery: application messages are withheld by the simulated delivery service for 0..R+3 epochs while the group advances, under write patterns from 'after every epoch' to 'never', crash/reload, retention R in {1,2,3,5}, both storage providers mirrored, sender leaves removed / reused / re-keyed in between; retention model decides accept / reject",
+            "A late message of epoch e is decrypted (true sender index, payload, AAD) iff e is among the R most recent prior epochs as of the receiver's last write or was entered since that write (model: set on disk after the last write, trimmed to R, plus epochs entered since; a crash discards the second part), the receiver was a member at e on this device, the generation is inside the window and not yet used, and the sender's leaf in the receiver's current tree still carries the signature key it had at e; a vacated or reused leaf must be rejected; a rotated signature key is 'may'. After every write the prior-epoch ids readable through GroupStateStorage::epoch must equal the model's set exactly (older secrets are gone) on both providers; rejected late messages leave the complete state unchanged. One third of the runs keep two groups per party in the same stores (a write for one group must not disturb the other).",
+            "trusted: the retention model (DESIGN §6.C19), canonical rosters for the sender-leaf rule",
+            "DESIGN.md §6.C19"),
 }
 
 NOT_APPLICABLE = {
